@@ -29,6 +29,50 @@ CODEC_PAIRS = {("read_bool_from", "write_bool_as"), ("read_string", "write_strin
                ("convert_to_string", "convert_from_string"), ("convert_from_slots", "convert_to_slots"), ("convert_from_gearsets", "convert_to_gearsets")}
 
 
+def loop_search_table(prog, tb, by_name):
+    """position -> variant name for a try_from written as a linear search over a constant array of the variants that
+    returns the element whose discriminant equals the argument (and Err after the loop); None if the body is not that."""
+    from ..loops import classify
+    from ..prov import derive, index_of
+
+    ix = index_of(tb)
+    arrs = []
+    for _bi, t_ in tb.calls():
+        for o in t_["args"]:
+            k = o.get("k") if isinstance(o, dict) else None
+            if isinstance(k, dict) and str(k.get("ty", "")).replace(" ", "").startswith("[gearsets::GearSlotType;") and k.get("bytes"):
+                arrs.append(bytes.fromhex(k["bytes"]))
+    cl = classify(tb)
+    if len(arrs) != 1 or len(cl) != 1 or cl[0]["kind"] != "ITER":
+        return None
+    present = set(arrs[0])
+    # the comparison: discriminant of the loop element (as usize) == the argument, Ok(element) on its true side
+    cmp_ok = ok_from_elem = err_after = False
+    for bi, blk in enumerate(tb.blocks):
+        t_ = blk["t"]
+        if t_["k"] == "switch":
+            r = ix.resolve(t_["a"])
+            if r[0] == "rv" and r[1]["k"] == "bin" and r[1]["op"] == "Eq":
+                sides = [ix.resolve(r[1]["a"]), ix.resolve(r[1]["b"])]
+                ds = [derive(ix, r[1]["a"]), derive(ix, r[1]["b"])]
+                for (sa, da), (sb_, _db) in ((list(zip(sides, ds))[0], list(zip(sides, ds))[1]), (list(zip(sides, ds))[1], list(zip(sides, ds))[0])):
+                    elem_side = any(c_.split("::")[-1] == "next" for c_ in da.calls) and not (da.ops - set()) and 1 not in da.params
+                    if elem_side and sb_ == ("param", 1):
+                        cmp_ok = True
+    for _bi, _si, st in tb.stmts():
+        rv = st.get("rv") or {}
+        if st["k"] == "assign" and rv.get("k") == "agg" and rv.get("adt") == "std::result::Result":
+            if rv.get("variant") == "Ok" and rv["ops"]:
+                d_ = derive(ix, rv["ops"][0])
+                ok_from_elem = any(c_.split("::")[-1] == "next" for c_ in d_.calls) and not d_.ops and not d_.consts
+            if rv.get("variant") == "Err":
+                err_after = True
+    if not (cmp_ok and ok_from_elem and err_after):
+        return None
+    name_of = {d: n for n, d in by_name.items()}
+    return {d: name_of[d] for d in present if d in name_of}
+
+
 def run(ctx):
     prog = ctx.prog
     wm = model(ctx)
@@ -218,7 +262,22 @@ def run(ctx):
 
         comp_ = Composer(prog)
         t = Table(tb, composer=comp_)
+        searched = None
         if not t.is_table:
+            searched = loop_search_table(prog, tb, dict(slots))
+        if searched is not None:
+            # `for candidate in ALL { if candidate as usize == v { return Ok(candidate) } } Err(())`: position p maps to
+            # the variant whose discriminant is p when the constant array lists it
+            n_pos = 0
+            for name, dv in slots + [("<out of range>", max(d_ for _n, d_ in slots) + 1)]:
+                n_pos += 1
+                got = searched.get(dv)
+                if name.startswith("<"):
+                    ctx.ob("SLOTPOS", "out-of-range", got is None, f"position {dv} (past the last slot) maps to {got}; must be Err", tb.file, tb.line, trivial=True)
+                else:
+                    ctx.ob("SLOTPOS", f"position|{dv}", got == name, f"reader maps table position {dv} to {got}; the writer stores {name} at position {dv} (its discriminant)", tb.file, tb.line, sample=(dv == 8))
+            ctx.floor("SLOTPOS", "slot positions", n_pos, 15)
+        elif not t.is_table:
             ctx.fail_closed("SLOTPOS", "TryFrom<usize> for GearSlotType is not a loop-free decision table over its argument")
         else:
             n_pos = 0
@@ -277,7 +336,7 @@ def run(ctx):
             ctx.fail_closed("XOR", f"{fn} not found")
             continue
         ok = False
-        for c in prog.closures_of(fn):
+        for c in [b_ for b_ in prog.deep_bodies(fn) if b_.name != fn]:  # a closure, or a local fn handed to map()
             for _bi, _si, s in c.stmts():
                 rv = s.get("rv", {})
                 if rv.get("k") == "bin" and rv["op"] == "BitXor":
@@ -287,7 +346,7 @@ def run(ctx):
                             ok = True
         # the closure must be applied over the whole body buffer (map over iter of the buffer)
         calls = [(t.get("res") or "") for _bi, t in b.calls()]
-        mapped = any(c.endswith("Iterator::map") or c.endswith("::map") for c in calls) and any(c.endswith("::collect") for c in calls)
+        mapped = any(c.endswith("Iterator::map") or c.endswith("::map") for c in calls) and any(c.endswith("::collect") or c.endswith("::extend") for c in calls)
         # the same transformation in place: `for byte in buf.iter_mut() { *byte ^= KEY }` - a store through the
         # element reference of an iter_mut() over the buffer, of that element XOR the key, inside a loop
         inplace = False
